@@ -109,9 +109,10 @@ class Runner:
     def native_build(self, q, real, out, sanitize=True):
         """build the harness natively against the real C++ wrapper (real=True) or the generated C"""
         defs = ['-D%s=%s' % kv for kv in q.defs.items()] + ['-DVP_NATIVE', '-DVP_ENTRY=' + q.entry]
+        if real and any(self.units[u].flat for u in q.units): defs.append('-DVP_REAL=1')     # flat-memory harness: real pointers against the real C++
         inc = ['-I', self.work, '-I', ENGINE, '-I', os.path.join(VERIF, 'harness')]
         hobj = out + '.h.o'
-        san = ['-fsanitize=address,undefined', '-fno-sanitize-recover=undefined'] if sanitize else []
+        san = ['-fsanitize=address,undefined', '-fno-sanitize-recover=undefined', '-fno-sanitize=nonnull-attribute'] if sanitize else []     # memcpy(p, nullptr, 0) on empty strings is outside every property
         r = sh(['gcc', '-std=gnu11', '-g', '-O0', '-w', '-c', os.path.join(VERIF, 'harness', q.harness), '-o', hobj] + defs + inc + (san if real else []))
         if r.returncode != 0: raise Broken('gcc failed on harness %s (native):\n%s' % (q.harness, r.stdout[-3000:]))
         objs = [hobj]
@@ -127,9 +128,10 @@ class Runner:
                     if r.returncode != 0: raise Broken('g++ failed on %s:\n%s' % (u.src, r.stdout[-3000:]))
                 objs.append(cached)
             else:
-                cached = os.path.join(self.work, '%s.gen.o' % un)
+                dkey = hashlib.sha256(' '.join(sorted(defs)).encode()).hexdigest()[:10] if u.flat else 'x'     # flat units depend on the region layout macros
+                cached = os.path.join(self.work, '%s.%s.gen.o' % (un, dkey))
                 if not os.path.exists(cached):
-                    r = sh(['gcc', '-std=gnu11', '-g', '-O1', '-w', '-c', os.path.join(self.work, un + '.c'), '-o', cached] + inc)
+                    r = sh(['gcc', '-std=gnu11', '-g', '-O1', '-w', '-c', os.path.join(self.work, un + '.c'), '-o', cached] + inc + (defs if u.flat else []))
                     if r.returncode != 0: raise Broken('gcc failed on generated %s.c:\n%s' % (un, r.stdout[-3000:]))
                 objs.append(cached)
         r = sh(['g++', '-o', out] + objs + (san if real else []) + ['-pthread'])
@@ -360,8 +362,14 @@ class Runner:
         if hasattr(mod, 'prepare'): mod.prepare(self)       # generated inputs (e.g. enumerated shape lists) go to the scratch directory
         # translator validation
         nval = getattr(mod, 'VALIDATE_VECTORS', 60)
+        self.validation_broken = []
         for q in getattr(mod, 'validation_queries', lambda t: [])(self.tier):
-            self.validate(q, nval)
+            try:
+                self.validate(q, nval)
+            except Broken as e:
+                # do not stop here: a change that breaks the property can also make the two native builds disagree (e.g. only the
+                # real build runs under ASan); the solver queries decide, and the disagreement is reported as BROKEN only if they pass
+                self.validation_broken.append(str(e)); self.say('[validate] DISAGREEMENT (queries still run): ' + str(e)[:300].replace('\n', ' | '))
         self.say('[run] %s tier=%s: %d queries on %d workers' % (self.prop, self.tier, len(qs), self.jobs))
         qs_sorted = sorted(qs, key=lambda q: -q.timeout * (2 if q.kind == 'main' else 1))
         with ThreadPoolExecutor(max_workers=self.jobs) as ex:
@@ -416,7 +424,9 @@ class Runner:
                 broken.append((q, 'unwinding bound too small: ' + '; '.join(sorted(set(x['id'] for x in r['failed']))[:4]))); continue
             st, d = self.replay(q, r)
             violations.append((q, d, st))
-        self.write_evidence(qs, violations, broken, noverdict, known_lines)
+        for e in getattr(self, 'validation_broken', []):
+            broken.append((Q('translator-validation', self.mod.UNITS[0].name, '-', '-'), e[:1500]))
+        self.write_evidence([q for q in qs], violations, [b for b in broken if b[0].res is not None], noverdict, known_lines)
         for l in known_lines: self.say(l)
         for (q, why) in noverdict: self.say('NO-VERDICT (optional query, outside the claim): %s: %s' % (q.name, why))
         for (q, why) in broken: self.say('BROKEN: %s: %s' % (q.name, why))
